@@ -829,6 +829,10 @@ def gen_axis(draw, tier="quick"):
     for s in shape:
         size *= s
     val = st.one_of(st.floats(-100, 100, allow_subnormal=False), st.integers(-4, 4).map(float))
+    int_raster = draw(st.integers(0, 3)) == 0
+    if int_raster:
+        # an integer raster (class codes, counts): handed over with an integer dtype, missing cells as a sentinel value
+        val = st.integers(-4, 9).map(float)
     flat = draw(st.lists(val, min_size=size, max_size=size))
     mode = draw(st.sampled_from(["plain", "mask", "nan", "mask+nan", "nomask_ma"]))
     mask = None
@@ -855,6 +859,7 @@ def gen_axis(draw, tier="quick"):
         "nan": nan,
         "estimator": draw(st.sampled_from(["matheron", "cressie"])),
         "spelling": draw(st.sampled_from(["lower", "lower", "Capital", "UPPER", "mIxEd"])),
+        "int_raster": draw(st.sampled_from(["int32", "int64", "nested_list"])) if int_raster else None,
     }
 
 
@@ -907,6 +912,22 @@ def check_axis(case, rec):
     wv = lib(gs.vario_estimate_axis, fld, direction, _spell(est, case), _tags=tags)
     msg, rel = _mismatch(wv, None, o_v, None)
     require(msg is None, f"vario_estimate_axis: {msg}", dict(tags, kind="mismatch", api="vario_estimate_axis"))
+    if case.get("int_raster"):
+        sent = -9999
+        ints = np.array(flat, dtype=np.int64).reshape(shape)
+        if nan is not None:
+            ints[np.array(nan, dtype=bool).reshape(shape)] = sent
+        how = case["int_raster"]
+        if how == "nested_list" and mask is None:
+            arg = ints.tolist()
+        else:
+            arg = ints.astype(np.int32 if how == "int32" else np.int64)
+            if mask is not None:
+                arg = np.ma.array(arg, mask=np.array(mask, dtype=bool).reshape(shape))
+        rec.label("integer_raster_" + how + ("_sentinel" if nan is not None and any(nan) else ""))
+        wi = lib(gs.vario_estimate_axis, arg, direction, _spell(est, case), no_data=sent, _tags=tags)
+        msg, rel = _mismatch(wi, None, o_v, None)
+        require(msg is None, f"vario_estimate_axis on an integer raster ({how}) with no_data={sent}: {msg}", dict(tags, kind="mismatch", api="vario_estimate_axis", dtype=how))
     nonempty = sum(1 for c in o_c if c > 0)
     if nonempty < na - 1:
         rec.label("lag_without_pairs")
